@@ -500,6 +500,7 @@ class TU:
                 dd['_tu'] = self
         self.functions = [Fn(self, r) for r in d['functions']]
         self.records, self.enums, self.vars = d['records'], d['enums'], d['vars']
+        self.aliases = d.get('aliases', [])
         self._by_qp = {}
         for f in self.functions:
             self._by_qp.setdefault(f.qp, []).append(f)
